@@ -5,7 +5,7 @@
    arbitrary lists of wrapper operations over an arbitrary number of wrappers; wrapped objects
    are arbitrary values (size class, copyability, behaviour, payload, mutable call state). *)
 From Coq Require Import List Bool Arith ZArith NArith Permutation.
-From Pika Require Import Model.Erased Proofs.ErasedProofs Proofs.ErasedSpecProofs.
+From Pika Require Import Gen.GenErased Model.Erased Proofs.ErasedProofs Proofs.ErasedSpecProofs Proofs.ErasedThrowProofs.
 Import ListNotations.
 
 (* --- erased_transparent: for every history, what an observer sees of the wrappers (outcome of
@@ -144,29 +144,136 @@ Theorem C18_contained_destroyed_once_functions : forall n ops,
 Proof. exact function_destroyed_once. Qed.
 Print Assumptions C18_contained_destroyed_once_functions.
 
-(* --- finding F9b (KNOWN_FINDINGS: C18:FUNX:...): the theorems above are about histories in which
-   the wrapped objects' copy / move constructors do not throw (fstep has no such step).  With a
-   copy constructor that throws during function::operator=(function const&) onto a non-empty
-   function the old object is destroyed twice.  Full statement that is NOT provable for the code
-   as it is:  forall n ops, NoDup (dtors (led (destroy_all (run fxstep ops (init n))))). *)
+(* --- exception safety.  The theorems above are about histories in which the wrapped objects'
+   copy / move constructors do not throw.  sxstep / gstep add, for EVERY wrapper operation that
+   constructs a wrapped object, the variant in which that constructor throws, in the source's
+   order of destroy / allocate / construct.
+
+   Senders (unique_any_sender / any_sender, with and without SBO, incl. nested): every history with
+   any number of throwing stores, clones, nestings, embedded moves and r-value connects keeps
+   contained_destroyed_once, and after a step that threw every wrapper is unchanged or empty. *)
+Theorem C18_exception_safety_senders : forall sbo n ops,
+  (let st := run (sxstep sbo) ops (init n) in
+   (NoDup (ctors (led st)) /\ NoDup (ids (slots st) ++ dtors (led st)) /\
+    Permutation (ctors (led st)) (ids (slots st) ++ dtors (led st))) /\
+   let L := led (destroy_all st) in
+   NoDup (ctors L) /\ NoDup (dtors L) /\ Permutation (ctors L) (dtors L)) /\
+  (forall op st k, sx_is_throw op = true -> fst (sxstep sbo op st) = OThrew 0 ->
+     slot (slots (snd (sxstep sbo op st))) k = slot (slots st) k \/
+     slot (slots (snd (sxstep sbo op st))) k = Empty).
+Proof. exact sender_exception_safety. Qed.
+Print Assumptions C18_exception_safety_senders.
+
+(* Functions.  Full statement that is NOT provable for the code as it is:
+     forall n ops, facts (xs (grun ops (xinit n))) /\ after a throwing step every wrapper is unchanged or Empty
+     and not stale.
+   Proved: the same for histories whose throwing steps CONSTRUCT a wrapper (function(F&&) /
+   unique_function(F&&), the copy constructor) — gsafe; refuted for assignment (three witnesses). *)
+Theorem C18_exception_safety_functions_partial : forall n ops, forallb gsafe ops = true ->
+  (let st := xs (grun ops (xinit n)) in
+   (NoDup (ctors (led st)) /\ NoDup (ids (slots st) ++ dtors (led st)) /\
+    Permutation (ctors (led st)) (ids (slots st) ++ dtors (led st))) /\
+   let L := led (destroy_all st) in
+   NoDup (ctors L) /\ NoDup (dtors L) /\ Permutation (ctors L) (dtors L)) /\
+  (forall j, nth j (stale (grun ops (xinit n))) None = None) /\
+  (forall op x k, gsafe op = true -> g_is_throw op = true -> (forall j, nth j (stale x) None = None) ->
+     fst (gstep op x) = OThrew 0 ->
+     (slot (slots (xs (snd (gstep op x)))) k = slot (slots (xs x)) k \/
+      slot (slots (xs (snd (gstep op x)))) k = Empty) /\
+     (forall j, nth j (stale (snd (gstep op x))) None = None)).
+Proof. exact function_exception_safety_partial. Qed.
+Print Assumptions C18_exception_safety_functions_partial.
+
+(* finding F9b (KNOWN_FINDINGS C18:FUNX:...): function::operator=(function const&) onto a non-empty
+   function of the same stored type, copy constructor throws: the old object is destroyed twice *)
 Theorem C18_throwing_copy_double_destroy_refuted :
-  exists n ops x, count_occ Nat.eq_dec (dtors (led (destroy_all (run fxstep ops (init n))))) x = 2.
+  exists n ops x, count_occ Nat.eq_dec (dtors (led (destroy_all (xs (grun ops (xinit n)))))) x = 2.
 Proof. exact throwing_copy_double_destroy_refuted. Qed.
 Print Assumptions C18_throwing_copy_double_destroy_refuted.
 
-(* histories without the throwing step are exactly the fstep histories of the theorems above *)
-Theorem C18_contained_destroyed_once_functions_partial : forall n ops,
-  let st := run fxstep (map FX ops) (init n) in
-  let L := led (destroy_all st) in
-  NoDup (ctors L) /\ NoDup (dtors L) /\ Permutation (ctors L) (dtors L).
-Proof. exact function_destroyed_once_fx. Qed.
-Print Assumptions C18_contained_destroyed_once_functions_partial.
+(* the same pattern in another function, basic_function::assign(F&&) (operator=(F&&), assign(F&&)),
+   vptr == f_vptr branch (KNOWN_FINDINGS C18:FUNA:...) *)
+Theorem C18_throwing_assign_double_destroy_refuted :
+  exists n ops x, count_occ Nat.eq_dec (dtors (led (destroy_all (xs (grun ops (xinit n)))))) x = 2.
+Proof. exact throwing_assign_double_destroy_refuted. Qed.
+Print Assumptions C18_throwing_assign_double_destroy_refuted.
+
+(* basic_function::assign(F&&) onto an EMPTY function: afterwards the wrapper reports empty, but it is
+   not a consistent empty wrapper: a copy assignment from a non-empty function (same stored type)
+   leaves it empty, and invoking it is undefined behaviour instead of bad_function_call *)
+Theorem C18_throwing_assign_stale_refuted :
+  exists n ops, let r := gtrace ops (xinit n) in
+    map (fun t => (fst (fst t), snd t)) (fst r) =
+      [(OThrew 0, [true; true]); (ONone, [true; false]); (ONone, [true; false])] /\
+    is_stale (snd r) 0 = true /\
+    fst (gstep (GF (FInvoke 0 0)) (snd r)) = OUndef.
+Proof. exact throwing_assign_stale_refuted. Qed.
+Print Assumptions C18_throwing_assign_stale_refuted.
+
+(* --- nested wrappers.  SNest / FStoreFn are operations of sop / fop, so erased_transparent and
+   contained_destroyed_once above already quantify over histories with nesting (the specification
+   stores the VALUE of the inner wrapper: nesting is transparent; the inner object's ledger is
+   balanced).  Step-wise: *)
+Theorem C18_nested_function_transparent : forall st j v mvi mv arg, j < length (slots st) ->
+  let st' := snd (fstep (FStoreFn j v false mvi mv) st) in
+  abs (slot (slots st') j) = Some v /\
+  (exists s, slot (slots st') j = Nested s) /\
+  fst (fstep (FInvoke j arg) st') = fst (call v arg) /\
+  abs (slot (slots (snd (fstep (FInvoke j arg) st'))) j) = Some (snd (call v arg)).
+Proof. exact nested_function_transparent. Qed.
+Print Assumptions C18_nested_function_transparent.
+
+(* a unique_any_sender constructed from an L-VALUE any_sender stores a copy of it: it completes as
+   the any_sender's sender would (bad_function_call when the any_sender is empty), the source is
+   unchanged, and — the one observable difference — it is never empty *)
+Theorem C18_nested_sender_transparent : forall sbo st j i,
+  j < length (slots st) -> i < length (slots st) -> j <> i ->
+  let st' := snd (sstep sbo (SNest j i) st) in
+  abs (slot (slots st') j) = Some (nest_val (abs (slot (slots st) i))) /\
+  abs (slot (slots st') i) = abs (slot (slots st) i) /\
+  is_empty (slot (slots st') j) = false /\
+  fst (sstep sbo (SConnectRv j) st') = direct_connect (nest_val (abs (slot (slots st) i))).
+Proof. exact nested_sender_transparent. Qed.
+Print Assumptions C18_nested_sender_transparent.
+
+(* target<T>() is the one observer that sees nesting: it answers for the stored type *)
+Theorem C18_target_sees_nesting : forall s o,
+  f_target None (Nested s) = OValue 1 /\
+  (forall q, f_target (Some q) (Nested s) = ONone) /\
+  f_target None (Heap o) = ONone /\ f_target None (Inline o) = ONone /\
+  f_target (Some (vbig (ov o), vcpy (ov o), valn (ov o))) (Heap o) = OValue (vpay (ov o) * 100 + vcalls (ov o)) /\
+  f_target (Some (vbig (ov o), vcpy (ov o), valn (ov o))) (Inline o) = OValue (vpay (ov o) * 100 + vcalls (ov o)) /\
+  (forall q, f_target q Empty = ONone).
+Proof. exact target_sees_nesting. Qed.
+Print Assumptions C18_target_sees_nesting.
+
+(* --- the storage decision, on the definitions GENERATED from any_sender.hpp / basic_function.hpp /
+   vtable.hpp: an Impl is embedded iff the SBO macro is on, it fits AND is sufficiently aligned
+   (over-aligned types go to the heap); basic_function looks at the size only and allocate /
+   deallocate agree; the class bits of the histories are these decisions (class_ok is evaluated by the
+   driver on the sizeof / alignof the harness reports for every test type) *)
+Theorem C18_embedded_storage_decision : forall sbo k size align,
+  sender_embeds sbo k size align = true <->
+  sbo = true /\ (size <= embedded_size k)%N /\ (align <= sbo_alignment_size)%N.
+Proof. exact embedded_decision. Qed.
+Print Assumptions C18_embedded_storage_decision.
+
+Theorem C18_function_storage_decision : forall size,
+  (function_inline size = true <-> (size <= function_storage_size)%N) /\
+  allocate_heap size function_storage_size = deallocate_heap size function_storage_size.
+Proof. exact function_decision. Qed.
+Print Assumptions C18_function_storage_decision.
+
+Theorem C18_class_bits_decide : forall sbo k size align v,
+  class_ok sbo k size align (vbig v) (valn v) = true -> can_embed sbo v = sender_embeds sbo k size align.
+Proof. exact class_bits_decide. Qed.
+Print Assumptions C18_class_bits_decide.
 
 (* --- non-vacuity: concrete histories *)
 Definition small_copyable (beh : N) (k : Z) : oval :=
-  {| vbig := false; vcpy := true; vbeh := beh; vpay := k; vcalls := 0 |}.
+  {| vbig := false; vcpy := true; valn := false; vbeh := beh; vpay := k; vcalls := 0 |}.
 Definition big_moveonly (beh : N) (k : Z) : oval :=
-  {| vbig := true; vcpy := false; vbeh := beh; vpay := k; vcalls := 0 |}.
+  {| vbig := true; vcpy := false; valn := false; vbeh := beh; vpay := k; vcalls := 0 |}.
 
 (* the F9 scenario (two moves of a small sender through inline storage, SBO build): the two
    moved-from objects are destroyed, 4 constructions and 4 destructions *)
@@ -195,3 +302,27 @@ Example C18_example_function :
   ctors (led (destroy_all (snd r))) = [4; 3; 2; 1; 0] /\
   dtors (led (destroy_all (snd r))) = [4; 2; 3; 1; 0].
 Proof. vm_compute. repeat split. Qed.
+
+(* nesting, target and a throwing store in one history: a function holding a stateful callable is
+   stored (moved) in a unique_function, invoked, queried; then an any-style throwing construction *)
+Example C18_example_nested_and_throw :
+  let ops := [GF (FStoreFn 0 (small_copyable 0 3) false true true); GF (FInvoke 0 2);
+              GTarget 0 None; GTarget 0 (Some (false, true, false));
+              GStoreThrow 1 (small_copyable 0 5) true; GF (FInvoke 1 0)] in
+  let r := gtrace ops (xinit 2) in
+  map (fun t => fst (fst t)) (fst r) = [ONone; OValue 309; OValue 1; ONone; OThrew 0; OThrewBad]%Z /\
+  dtors (led (destroy_all (xs (snd r)))) = [1; 2; 0].
+Proof. vm_compute. repeat split. Qed.
+
+(* an over-aligned small sender is stored on the heap although it fits (SBO build); an embedded
+   sender whose move constructor throws leaves the target empty and the source unchanged *)
+Example C18_example_overaligned_and_throwing_move :
+  let va := {| vbig := false; vcpy := true; valn := true; vbeh := 0; vpay := 4; vcalls := 0 |} in
+  let ops := [SX (SStore 0 va true true); SX (SStore 1 (small_copyable 0 7) true true); SXMoveThrow 2 1;
+              SX (SConnectRv 1)] in
+  let r := trace (sxstep true) ops (init 3) in
+  (exists o, slot (slots (snd (sxstep true (SX (SStore 0 va true true)) (init 3)))) 0 = Heap o) /\
+  map obs (fst r) = [(ONone, [false; true; true]); (ONone, [false; false; true]);
+                     (OThrew 0, [false; false; true]); (OValue 7, [false; true; true])] /\
+  sender_embeds true KUnique 32 16 = false /\ sender_embeds true KUnique 32 8 = true.
+Proof. vm_compute. repeat split. eexists; reflexivity. Qed.
